@@ -705,6 +705,19 @@ impl<'r> Grammar<'r> {
                 let ty = self.rng.pick(TYPES).to_string();
                 self.t(&ty);
             }
+            if self.rng.chance(1, 5) {
+                // portability directive on the declaration
+                match self.rng.below(5) {
+                    0 => self.k("experimental"),
+                    1 => self.k("platform"),
+                    2 => self.k("library"),
+                    3 => {
+                        self.k("deprecated");
+                        self.t("'use another'");
+                    }
+                    _ => self.k("deprecated"),
+                }
+            }
             self.t(";");
         }
     }
@@ -1356,7 +1369,7 @@ pub fn render_layout(p: &Program, rng: &mut Rng, o: LayoutOpts) -> String {
                 gap.push('\t');
             } else if c < 90 {
                 gap.push_str(nl);
-                gap.push_str(&" ".repeat(rng.below(9)));
+                gap.push_str(&" ".repeat(if rng.chance(1, 3) { 0 } else { rng.below(9) }));
             } else if o.blank_lines && is_start {
                 gap.push_str(nl);
                 gap.push_str(nl);
@@ -1749,6 +1762,156 @@ pub fn lex_family_case(class: usize, len: usize, off: usize, follower: usize, rn
     s
 }
 
+/// `tokfam` family (C13): a sequence of tokens, each built from the Delphi lexical rules so that it is one token of a
+/// known class, separated by blanks.  Returns the text and the expected tokens as "class\u{1}text".
+pub fn tok_family_case(rng: &mut Rng) -> (String, Vec<String>) {
+    fn quoted(rng: &mut Rng) -> String {
+        let mut q = String::from("'");
+        for _ in 0..rng.below(6) {
+            q.push_str(rng.pick_str(&["a", " ", "}", "{", "(*", "*)", "//", "''", "é", "#", "$", "{$", "日", "\t", "x y", ";", "end"]));
+        }
+        q.push('\'');
+        q
+    }
+    fn escape(rng: &mut Rng) -> String {
+        match rng.below(4) {
+            0 => format!("#{}", rng.range(0, 255)),
+            1 => format!("#${:X}", rng.range(0, 0xFFFF)),
+            2 => format!("#%{:b}", rng.range(0, 255)),
+            _ => format!("#{}_{}", rng.range(0, 9), rng.range(0, 99)),
+        }
+    }
+    // a comment, string or nested directive that may stand inside the expression of `{$if}` / `{$elseif}`
+    fn nested(rng: &mut Rng, depth: usize) -> String {
+        match rng.below(7) {
+            0 => format!("{{{}}}", rng.pick_str(&["", " note ", "(*", "'", "//", " a 'b ", "*)"])),
+            1 => format!("(*{}*)", rng.pick_str(&["", " note ", "}", "{", "'", "//", " } { "])),
+            2 => quoted(rng),
+            3 => format!("{{${} {}}}", rng.pick_str(&["I", "i", "INCLUDE", "define", "R"]), rng.pick_str(&["version.inc", "x", "+", "'f}.inc'"]).replace('}', "")),
+            4 if depth < 2 => format!("{{$IF {}}}", expr(rng, depth + 1)),
+            5 => format!("// line {}\n", rng.pick_str(&["", "}", "*)", "'", "{$endif}"])),
+            _ => format!("(*${} {}*)", rng.pick_str(&["I", "define"]), rng.pick_str(&["a.inc", "X"])),
+        }
+    }
+    fn expr(rng: &mut Rng, depth: usize) -> String {
+        let mut e = String::new();
+        for i in 0..rng.range(1, 4) {
+            if i > 0 {
+                e.push_str(rng.pick_str(&[" and ", " or ", " ", " >= ", "\n  "]));
+            }
+            if rng.chance(1, 2) {
+                e.push_str(rng.pick_str(&["Defined(B)", "CompilerVersion >= 30", "A", "not X", "SizeOf(Pointer) = 8", "(Y > 1)", "Suffix = "]));
+            } else {
+                e.push_str(&nested(rng, depth));
+            }
+        }
+        e
+    }
+    let mut text = String::new();
+    let mut exp = vec![];
+    let n = rng.range(1, 6);
+    let mut prev_line_comment = false;
+    text.push_str(rng.pick_str(&["", "", " ", "\n", "\u{3000}"]));
+    for i in 0..n {
+        if i > 0 || prev_line_comment {
+            let sep = rng.pick_str(&[" ", " ", "\n", "\t", "  \n ", "\r\n", "\u{3000}", " \u{3000} "]);
+            // a line comment runs up to the line break: whatever separates it from the next token starts with one
+            if prev_line_comment && !sep.starts_with('\n') && !sep.starts_with("\r\n") {
+                text.push('\n');
+            }
+            text.push_str(sep);
+        }
+        prev_line_comment = false;
+        let (class, tok): (String, String) = match rng.below(12) {
+            0 => {
+                let mut w = String::from(rng.pick_str(&["zq", "_", "Zq", "zqé", "q日", "&begin", "&zq", "zq_1"]));
+                for _ in 0..rng.below(5) {
+                    w.push_str(rng.pick_str(&["a", "B", "_", "0", "9", "é", "ß"]));
+                }
+                ("ident".into(), w)
+            }
+            1 => {
+                let k = rng.pick_str(&["begin", "end", "implementation", "if", "of", "to", "xor", "in", "initialization", "finalization", "resourcestring", "dispinterface", "absolute", "on", "at", "experimental", "winapi"]);
+                let w: String = k.chars().map(|c| if rng.chance(1, 3) { c.to_ascii_uppercase() } else { c }).collect();
+                ("kw".into(), w)
+            }
+            2 => {
+                let mut w = format!("{}", rng.range(0, 9999));
+                if rng.chance(1, 3) {
+                    w.push_str(&format!("_{}", rng.range(0, 99)));
+                }
+                if rng.chance(1, 2) {
+                    w.push_str(&format!(".{}", rng.range(0, 999)));
+                }
+                if rng.chance(1, 2) {
+                    w.push_str(rng.pick_str(&["e", "E"]));
+                    w.push_str(rng.pick_str(&["", "+", "-"]));
+                    w.push_str(&format!("{}", rng.range(0, 308)));
+                }
+                ("num".into(), w)
+            }
+            3 => ("num".into(), if rng.chance(1, 2) { format!("${:X}", rng.range(0, 0xFFFFFF)) } else { format!("%{:b}", rng.range(0, 1023)) }),
+            4 => {
+                // text literal: quoted parts and escapes in any order (two quoted parts in a row are one part with `''`)
+                let mut w = String::new();
+                let parts = rng.range(1, 4);
+                for _ in 0..parts {
+                    if rng.chance(1, 2) {
+                        w.push_str(&quoted(rng));
+                    } else {
+                        w.push_str(&escape(rng));
+                    }
+                }
+                ("text".into(), w)
+            }
+            5 => {
+                let q = rng.pick_str(&["\'\'\'", "\'\'\'\'\'"]);
+                let mut w = format!("{}\n", q);
+                for _ in 0..rng.below(3) {
+                    w.push_str(rng.pick_str(&["  a\n", "  'b'\n", "  }\n", "\n", "  ''\n", "  it's\n"]));
+                }
+                w.push_str("  ");
+                w.push_str(q);
+                ("text".into(), w)
+            }
+            6 => {
+                let w = match rng.below(3) {
+                    0 => format!("{{{}}}", rng.pick_str(&["", " c ", "(*", "*)", "'", "//", "{", " $x ", "\n", "a\nb", "é"])),
+                    1 => format!("(*{}*)", rng.pick_str(&["", " c ", "{", "}", "'", "//", "(*", " $x ", "\n", "*", ")", "* )"])),
+                    _ => {
+                        prev_line_comment = true;
+                        format!("//{}", rng.pick_str(&["", " c", "}", "{$endif}", "'", "(*", "/", "// x", " é"]))
+                    }
+                };
+                ("comment".into(), w)
+            }
+            7 => {
+                let name = rng.pick_str(&["R+", "define foo", "i inc.inc", "region 'x'", "WARN SYMBOL_PLATFORM OFF", "M 16384,1048576", "undef A", "POINTERMATH ON", "endregion"]);
+                let w = if rng.chance(3, 4) { format!("{{${}}}", name) } else { format!("(*${}*)", name) };
+                ("dir".into(), w)
+            }
+            8 => {
+                let (name, kind) = *rng.pick(&[("ifdef X", "Ifdef"), ("IFNDEF y", "Ifndef"), ("ifopt R+", "Ifopt"), ("else", "Else"), ("ELSE", "Else"), ("endif", "Endif"), ("ifend", "Ifend"), ("EndIf", "Endif"), ("else comment", "Else"), ("endif X", "Endif")]);
+                let w = if rng.chance(3, 4) { format!("{{${}}}", name) } else { format!("(*${}*)", name) };
+                (format!("cdir:{}", kind), w)
+            }
+            9 | 10 => {
+                let (name, kind) = *rng.pick(&[("if", "If"), ("IF", "If"), ("elseif", "Elseif"), ("ELSEIF", "Elseif"), ("ElseIf", "Elseif")]);
+                let e = expr(rng, 0);
+                let w = if rng.chance(3, 4) { format!("{{${} {}}}", name, e) } else { format!("(*${} {}*)", name, e) };
+                (format!("cdir:{}", kind), w)
+            }
+            _ => ("op".into(), rng.pick_str(&[":=", "<=", ">=", "<>", "..", "(.", ".)", "+", "-", "*", "/", "=", "<", ">", "[", "]", "(", ")", ",", ";", ":", "^", "@"]).to_string()),
+        };
+        text.push_str(&tok);
+        exp.push(format!("{}\u{1}{}", class, tok));
+    }
+    if prev_line_comment || rng.chance(1, 2) {
+        text.push('\n');
+    }
+    (text, exp)
+}
+
 pub fn lex_family(rng: &mut Rng, n: usize, exhaustive: bool) -> Vec<String> {
     let mut v = vec![];
     if exhaustive {
@@ -2001,8 +2164,10 @@ pub fn render_relayout(p: &Program, shared_seed: u64, private: &mut Rng, with_co
                 } else if c < 70 {
                     gap.push('\t');
                 } else {
+                    // a continuation line is flush left about as often as it is indented (the spaces before a token that
+                    // gets unwrapped then come from nowhere)
                     gap.push('\n');
-                    gap.push_str(&" ".repeat(private.below(9)));
+                    gap.push_str(&" ".repeat(if private.chance(1, 3) { 0 } else { private.below(9) }));
                 }
                 if gap.is_empty() && needs_sep(pv, &t.text) {
                     gap.push(' ');
